@@ -32,9 +32,17 @@ Definition mk_ts (ts : list Z) (sup : option iset) : list Z * iset :=
          end
   end.
 
-(* ts_group._union_intervals: 1 set -> itself; 2 sets -> jitunion + constructor; more -> jitunion_isets
-   + constructor *)
+(* ts_group._union_intervals (as repaired by 6917604): 1 set -> itself; two or more -> the n-ary kernel
+   jitunion_isets + constructor *)
 Definition union_supports (sups : list iset) : iset :=
+  match sups with
+  | [A] => A
+  | _ => mk_iset_pairs (k_union_n (concat sups))
+  end.
+
+(* the code before 6917604: two sets went through the pairwise jitunion, which leaves two touching
+   intervals separate, and the IntervalSet constructor then trims 1 us off the earlier one *)
+Definition union_supports_orig (sups : list iset) : iset :=
   match sups with
   | [A] => A
   | [A; B] => iset_union A B
@@ -48,6 +56,14 @@ Definition member := (Z * (list Z * iset))%type.
    the given one or the union of the members' supports; None = RuntimeError (empty union) *)
 Definition mk_group (ms : list member) (sup : option iset) : option (list (Z * list Z) * iset) :=
   let G := match sup with Some ep => ep | None => union_supports (map (fun m => snd (snd m)) ms) end in
+  let out := map (fun m : member => (fst m, restrict_ts (fst (snd m)) G)) ms in
+  match sup, G with
+  | None, [] => None
+  | _, _ => Some (out, G)
+  end.
+
+Definition mk_group_orig (ms : list member) (sup : option iset) : option (list (Z * list Z) * iset) :=
+  let G := match sup with Some ep => ep | None => union_supports_orig (map (fun m => snd (snd m)) ms) end in
   let out := map (fun m : member => (fst m, restrict_ts (fst (snd m)) G)) ms in
   match sup, G with
   | None, [] => None
@@ -131,4 +147,11 @@ Definition shuffle_group (g : list (Z * list Z)) (perms : list (list nat)) :=
   match shuffle_members g perms with
   | None => None
   | Some ms => mk_group ms None
+  end.
+
+(* shuffle_ts_intervals(TsGroup) before 6917604 (pairwise union of two members' supports) *)
+Definition shuffle_group_orig (g : list (Z * list Z)) (perms : list (list nat)) :=
+  match shuffle_members g perms with
+  | None => None
+  | Some ms => mk_group_orig ms None
   end.
